@@ -326,3 +326,10 @@ def lemmas(u: Unit):
 # detector class resolves it (MKID overrides Detector.empty) is proved in C02's unit, which is part of this check as well
 from . import C02 as _C02  # noqa: E402
 unit("C17", "nondestructive.keeps_pixel_all_detector_types")(_C02.empty_all_types)
+
+
+# the linearity of the accumulated charge rests on the conversion and collection steps being exact (C15): expectation-value photo-conversion
+# gives EXACTLY efficiency x photons (no rounding or truncation of the photon count) and simple collection adds exactly the generated charge
+from . import C15 as _C15  # noqa: E402
+unit("C17", "step.conversion_exact")(_C15.qe_unit)
+unit("C17", "step.collection_exact")(_C15.collection)
